@@ -21,7 +21,7 @@ type seg struct {
 	upper  bool // hex case
 	val    ssa.Value
 	note   string
-	folded string // var: the case conversion the value passes through ("" if none)
+	folded string     // var: the case conversion the value passes through ("" if none)
 	fr     *frame     // deep evaluator: the frame val lives in
 	origin *hexOrigin // deep evaluator: what a hex group prints
 	// plainBytes: a %x without flags or padding that alter the digits of a byte slice
